@@ -475,6 +475,9 @@ setp.replay_fn = _native_frame_witness
 
 # ------------------------------------------------------------------------------------------------ self-test catalogue
 MUTATIONS = [
+    dict(name='inline_resource_read_as_signed', file='vtf.py',
+         old="                [res_id, res_flags, data] = struct.unpack('<3sBI', file.read(8))",
+         new="                [res_id, res_flags, data] = struct.unpack('<3sBi', file.read(8))", expect='container='),
     dict(name='bgra5551_mask', file='_py_vtf_readwrite.py',
          old="        data[2 * offset + 1] = (a & 0b10000000) | ((r >> 1) & 0b01111100) | (g >> 6)",
          new="        data[2 * offset + 1] = (a & 0b10000000) | ((r >> 1) & 0b01111000) | (g >> 6)",
@@ -575,7 +578,9 @@ def _container_case(case):
     vtf = VTF(w, h, version=version, ref=(0.25, 0.5, 0.75), frames=frames, bump_scale=2.5, sheet_info=sheet,
               flags=flags, fmt=fmt, thumb_fmt=thumb, depth=1 if cube else depth)
     if extras and version >= (7, 3):
-        vtf.resources[ResourceID.CRC] = Resource(0, 0x12345678)
+        # inline resources are unsigned 32-bit values: the whole range must survive, also into a second generation
+        vtf.resources[ResourceID.CRC] = Resource(0, (0x12345678, 0xDEADBEEF, 0x80000000, 0xFFFFFFFF, 0, 0x7FFFFFFF)[(w + h + frames) % 6])
+        vtf.resources[ResourceID.EXTRA_FLAGS] = Resource(0, 0x80000000 | w)
         vtf.resources[b'ABC'] = Resource(0, b'hello world')
     written = {}
     for key, frame in vtf._frames.items():
